@@ -222,6 +222,7 @@ func (e *Env) expr(x Expr) (*SVal, error) {
 		ne := e.clone()
 		var binds []string
 		var guards []Term
+		var pats []string
 		for _, qv := range n.Vars {
 			ty, err := e.resolveType(qv.Type)
 			if err != nil {
@@ -236,6 +237,24 @@ func (e *Env) expr(x Expr) (*SVal, error) {
 					guards = append(guards, g)
 				}
 			}
+			// index variables: quantify over the absolute position in the backing array of the first
+			// slice indexed by exactly this variable, so that the trigger contains no arithmetic.
+			if s == SInt {
+				if base := findIndexOcc(n.Body, qv.Name, n.Vars); base != nil {
+					if bv, err := e.expr(base); err == nil && bv.T.Sort == SSlice {
+						ne.vars[qv.Name] = &SVal{sub(Term{nm, SInt}, sOff(bv.T)), ty}
+						if sl, ok := bv.Ty.Go.Underlying().(*types.Slice); ok {
+							comp := e.t.regElem(sl.Elem())
+							for _, st := range []*State{e.st, e.old} {
+								if st == nil {
+									continue
+								}
+								pats = append(pats, sel(sel(c.get(st, comp), sArr(bv.T)), Term{nm, SInt}).S)
+							}
+						}
+					}
+				}
+			}
 		}
 		body, err := ne.boolExpr(n.Body)
 		if err != nil {
@@ -247,6 +266,21 @@ func (e *Env) expr(x Expr) (*SVal, error) {
 		} else {
 			q = "exists"
 			body = and(append(guards, body)...)
+		}
+		var used []string
+		seenPat := map[string]bool{}
+		for _, p := range pats {
+			if strings.Contains(body.S, p) && !seenPat[p] {
+				seenPat[p] = true
+				used = append(used, p)
+			}
+		}
+		if len(used) > 0 && len(n.Vars) == 1 {
+			var ps []string
+			for _, p := range used {
+				ps = append(ps, ":pattern ("+p+")")
+			}
+			return &SVal{Term{fmt.Sprintf("(%s (%s) (! %s %s))", q, strings.Join(binds, " "), body.S, strings.Join(ps, " ")), SBool}, tyBool}, nil
 		}
 		return &SVal{Term{fmt.Sprintf("(%s (%s) %s)", q, strings.Join(binds, " "), body.S), SBool}, tyBool}, nil
 	case *ELet:
@@ -518,7 +552,7 @@ func (e *Env) index(n *EIndex) (*SVal, error) {
 	switch u := v.Ty.Go.Underlying().(type) {
 	case *types.Slice:
 		comp := e.t.regElem(u.Elem())
-		r := sel(sel(c.get(e.st, comp), sArr(v.T)), add(sOff(v.T), i.T))
+		r := sel(sel(c.get(e.st, comp), sArr(v.T)), addOff(sOff(v.T), i.T))
 		c.fact(c.typeFact(u.Elem(), r))
 		return &SVal{r, goT(u.Elem())}, nil
 	case *types.Map:
@@ -936,34 +970,31 @@ func (t *Tr) exitEnv(r *retInfo) *Env {
 func (t *Tr) loopEnv(li *loopInfo, st *State) *Env {
 	e := t.baseEnv(st)
 	h := li.head
-	// variables from DebugRefs in blocks that dominate the header and are outside the loop
+	// walk the dominators of the header in order: loop-carried variables of enclosing/earlier
+	// loops (phis named after the variable), address-taken locals, and definitions/uses (DebugRef)
 	for _, b := range t.order {
-		if !b.Dominates(h) || li.body[b] {
+		if b == h || !b.Dominates(h) || li.body[b] {
 			continue
 		}
 		for _, in := range b.Instrs {
-			dr, ok := in.(*ssa.DebugRef)
-			if !ok {
-				continue
-			}
-			obj := dr.Object()
-			if obj == nil {
-				continue
-			}
-			if _, isVar := obj.(*types.Var); !isVar {
-				continue
-			}
-			t.bindVar(e, obj.Name(), dr.X, dr.IsAddr)
-		}
-	}
-	// allocs (address-taken locals) anywhere dominating
-	for _, b := range t.order {
-		if !b.Dominates(h) || li.body[b] {
-			continue
-		}
-		for _, in := range b.Instrs {
-			if a, ok := in.(*ssa.Alloc); ok && a.Comment != "" {
-				t.bindVar(e, a.Comment, a, true)
+			switch x := in.(type) {
+			case *ssa.Phi:
+				if x.Comment != "" {
+					if v, ok := t.vals[x]; ok && v.T.S != "" {
+						delete(e.locs, x.Comment)
+						e.vars[x.Comment] = &SVal{v.T, goT(x.Type())}
+					}
+				}
+			case *ssa.Alloc:
+				if x.Comment != "" {
+					t.bindVar(e, x.Comment, x, true)
+				}
+			case *ssa.DebugRef:
+				if obj := x.Object(); obj != nil {
+					if _, isVar := obj.(*types.Var); isVar {
+						t.bindVar(e, obj.Name(), x.X, x.IsAddr)
+					}
+				}
 			}
 		}
 	}
@@ -1010,4 +1041,115 @@ func (t *Tr) bindVar(e *Env, name string, x ssa.Value, isAddr bool) {
 	}
 	delete(e.locs, name)
 	e.vars[name] = &SVal{v.T, goT(x.Type())}
+}
+
+// findIndexOcc: the base expression of the first x[v] in body whose index is exactly the
+// variable v and whose base mentions no bound variable.
+func findIndexOcc(body Expr, v string, bound []QVar) Expr {
+	var found Expr
+	mentions := func(e Expr) bool {
+		m := false
+		walkExpr(e, func(x Expr) {
+			if id, ok := x.(*EIdent); ok {
+				for _, b := range bound {
+					if b.Name == id.Name {
+						m = true
+					}
+				}
+			}
+		})
+		return m
+	}
+	walkExpr(body, func(x Expr) {
+		if found != nil {
+			return
+		}
+		if ix, ok := x.(*EIndex); ok {
+			if id, ok := ix.I.(*EIdent); ok && id.Name == v && !mentions(ix.X) {
+				found = ix.X
+			}
+		}
+	})
+	return found
+}
+
+func walkExpr(e Expr, f func(Expr)) {
+	if e == nil {
+		return
+	}
+	f(e)
+	switch n := e.(type) {
+	case *EUnary:
+		walkExpr(n.X, f)
+	case *EBinary:
+		walkExpr(n.X, f)
+		walkExpr(n.Y, f)
+	case *ECond:
+		walkExpr(n.C, f)
+		walkExpr(n.A, f)
+		walkExpr(n.B, f)
+	case *ESel:
+		walkExpr(n.X, f)
+	case *EIndex:
+		walkExpr(n.X, f)
+		walkExpr(n.I, f)
+	case *ESlice:
+		walkExpr(n.X, f)
+		walkExpr(n.Lo, f)
+		walkExpr(n.Hi, f)
+	case *ECall:
+		for _, a := range n.Args {
+			walkExpr(a, f)
+		}
+	case *EQuant:
+		walkExpr(n.Body, f)
+	case *ELet:
+		walkExpr(n.Val, f)
+		walkExpr(n.Body, f)
+	}
+}
+
+// addOff: off + idx, simplified when idx is (- a off).
+func addOff(off, idx Term) Term {
+	pre := "(- "
+	suf := " " + off.S + ")"
+	if strings.HasPrefix(idx.S, pre) && strings.HasSuffix(idx.S, suf) {
+		inner := idx.S[len(pre) : len(idx.S)-len(suf)]
+		// inner must be a single term
+		if balanced(inner) {
+			return Term{inner, SInt}
+		}
+	}
+	return add(off, idx)
+}
+
+func balanced(s string) bool {
+	if s == "" {
+		return false
+	}
+	d := 0
+	inBar := false
+	for i := 0; i < len(s); i++ {
+		c := s[i]
+		if c == '|' {
+			inBar = !inBar
+		}
+		if inBar {
+			continue
+		}
+		switch c {
+		case '(':
+			d++
+		case ')':
+			d--
+			if d < 0 {
+				return false
+			}
+		case ' ':
+			if d == 0 {
+				return false
+			}
+		}
+	}
+	return d == 0
 }
